@@ -432,7 +432,7 @@ def _jobs(tier):
     jobs = []
     opts = {'max_decisions': 6000, 'nlsat_fallback': True, 'prove_timeout_ms': 90000, 'feas_timeout_ms': 60000}
     # trade identities (no ratios) for 1..3 (4,5) trades; ratio identities with one trade and 2..4 (5) daily balances
-    for nt in ((1, 2, 3) if tier == 'quick' else (1, 2, 3, 4)):
+    for nt in ((1, 2, 3) if tier == 'quick' else (1, 2, 3, 4, 5)):
         jobs.append(Job('metrics_t%d_b2' % nt, h_metrics, {'ntrades': nt, 'nbal': 2, 'symbal': 1, 'ratios': False}, dict(opts)))
     # ratio identities: one symbolic daily return (2 balances); with 3..5 balances the balance list is concrete (four fixed shapes:
     # mixed, volatile, rising, falling) - the Sharpe identity with a symbolic variance did not decide reliably within the time limit
@@ -446,6 +446,9 @@ def _jobs(tier):
         jobs.append(Job('equity_2d_futures', h_equity, {'days': 2, 'exch': 'futures'}, dict(opts)))
         jobs.append(Job('equity_1d_spot', h_equity, {'days': 1, 'exch': 'spot'}, dict(opts)))
         jobs.append(Job('equity_1d_two_routes', h_equity, {'days': 1, 'exch': 'futures', 'two_routes': True}, dict(opts)))
+        jobs.append(Job('equity_3d_futures', h_equity, {'days': 3, 'exch': 'futures'}, dict(opts)))
+        jobs.append(Job('equity_2d_futures_short', h_equity, {'days': 2, 'exch': 'futures', 'side': 'short'}, dict(opts)))
+        jobs.append(Job('equity_2d_spot', h_equity, {'days': 2, 'exch': 'spot'}, dict(opts)))
     return jobs
 
 
@@ -464,7 +467,7 @@ def setup(tier, seed):
                        'days with concrete candles and symbolic starting balance/fee/quantity, a wrapper around save_daily_portfolio_balance recomputes the '
                        'account equity from the real objects at each sample.',
         'bounds': {'trades': [j.kwargs.get('ntrades') for j in jobs if 'ntrades' in j.kwargs], 'daily_balances': '2 (symbolic return) and 3-6 (concrete balance lists of four shapes)', 'sessions': '1-2 days, concrete candles'},
-        'outside': ['more than 4 trades / 5 balances', 'serenity index, smart ratios, CAGR and Calmar (fractional powers)', 'float rounding'],
+        'outside': ['more than 3 (quick) / 5 (thorough) trades, more than 4 / 6 balances', 'serenity index, smart ratios, CAGR and Calmar (fractional powers)', 'float rounding'],
         'stubs': list(jstubs.INSTALLED) + list(_PATCHED),
         'assumptions': ['floats as reals; sqrt through its defining identity'],
         'must_reach': ['trade-identities-checked', 'ratio-identities-checked', 'equity-checked'],
